@@ -172,8 +172,15 @@ func checkRandomAccess(c *Case, rep *core.Report, e *expected, data []byte) {
 				problem = fmt.Sprintf("attachment %d data: %v", i, err)
 				return
 			}
-			pc, err1 := ar.ParsedCRC()
-			cc, err2 := ar.ComputedCRC()
+			var pc, cc uint32
+			var err1, err2 error
+			if i%2 == 0 {
+				pc, err1 = ar.ParsedCRC()
+				cc, err2 = ar.ComputedCRC()
+			} else {
+				cc, err2 = ar.ComputedCRC()
+				pc, err1 = ar.ParsedCRC()
+			}
 			if err1 != nil || err2 != nil {
 				problem = fmt.Sprintf("attachment %d crc: %v %v", i, err1, err2)
 				return
